@@ -482,7 +482,7 @@ OBLIGATIONS = [
        functions=F_PROTO + ["parse_url"], stubs=STUBS,
        note="discrete: concrete long lines, the engine forks on the indices"),
     Ob("middleware_outcome", middleware_outcome, quick=240, thorough=900,
-       symbolic="middleware outcome (allow / deny / raise with symbolic text / deny without text), handler outcome, status",
+       symbolic="middleware outcome (allow / deny / raise with symbolic text), handler outcome, status",
        functions=F_PROTO, stubs=STUBS),
     Ob("tls_wrap", tls_wrap, quick=500, thorough=1500,
        symbolic="sync/async handler outcome as in sync_outcome, behind TLSServerProtocol + TLSTransportWrapper over StubTLSConn: handshake "
